@@ -1501,6 +1501,28 @@ theorem date_shift_gen (d : Date) (n c : Int) (δ : Delta) (hd : DateInv d)
   · rw [GenDateOps.gen_checked_sub_signed_eq d δ ok1 ok2 hf, a5]; rfl
   · rw [GenDate.gen_succ_opt_eq d ok1, a6]; rfl
 
+/-- translated `NaiveDate::pred_opt` (the step of `iter_days().next_back()`): one day earlier, or
+refused exactly at `MIN`.  (The translation theorem needs the ordinal/leap field ≤ 732: ordinal 366
+occurs only with the leap flag.) -/
+theorem date_pred_gen (d : Date) (hd : DateInv d) :
+    ∃ r, Gen.naive_date.NaiveDate.pred_opt d.yof = .ok (r.map Date.yof) ∧ IsDayShift d (-1) r := by
+  obtain ⟨ok1, _⟩ := dateOk_of_inv d hd
+  obtain ⟨_, _, h3, h4, h5⟩ := hd
+  obtain ⟨f1, _, f3, _⟩ := flagsOf_facts d.year
+  have e1 : d.yof / 8 % 1024 = 2 * (d.yof / 16 % 512) + d.yof % 16 / 8 := by omega
+  have e2 : d.yof % 16 / 8 = ((flagsOf d.year / 8 : Nat) : Int) := by rw [h5]; omega
+  have hol : d.yof / 8 % 1024 ≤ 732 := by
+    rw [e1, e2]
+    have g3 := h3
+    have g4 := h4
+    unfold Date.ordinal at g3 g4
+    unfold yearLen at g4
+    by_cases hl : isLeap d.year
+    · rw [if_pos hl] at g4 f3; rw [f3]; push_cast at g4 ⊢; omega
+    · rw [if_neg hl] at g4 f3; rw [f3]; push_cast at g4 ⊢; omega
+  obtain ⟨r, a, b⟩ := pred_shift d ⟨‹_›, ‹_›, h3, h4, h5⟩
+  exact ⟨r, by rw [GenDate.gen_pred_opt_eq d ok1 hol, a]; rfl, b⟩
+
 /-- translated `NaiveDate::signed_duration_since`: exactly the day distance (clause 2 for dates) -/
 theorem date_diff_exact_gen (a b : Date) (ha : DateInv a) (hb : DateInv b) :
     Gen.naive_date.NaiveDate.signed_duration_since a.yof b.yof
